@@ -25,6 +25,11 @@ CLAIMED = {
    text='Sound-by-construction memory-safety argument for the 11 decoders and the decompressor without running them: a path-enumerating abstract interpreter tracks, for every pointer into a byte buffer, linear lower bounds of the bytes remaining; every dereference, ptr[i], memcpy/assign source and pointer advance is an obligation proved from dominating guards and inferred loop invariants (counted-loop relational invariants and descending fix-points), wire-derived signed arithmetic is checked against its type range, container indexing and the end pointer against the buffer, loops for progress, the inflate loop for termination over every status code with the input exhausted, and thrown types for derivation from std::exception. An unproved obligation with a fully modelled path is a violation naming the call chain; unmodelled constructs are exit 2.',
    note='Trusted: clang AST, sa/absint.py + sa/lin.py, zlib\'s inflate contract, buffers < 2^31 bytes, allocation failure surfacing as an exception. Not decided: wall-clock promptness beyond loop progress. Five genuine defects found by this check were repaired (known_findings.json, fixed entries).',
    ref='DESIGN.md 4 C05'),
+ 'C02': dict(
+   technique='grammar extraction from the clang AST (emission / consumption order of fixed-width primitives, repeat groups, byte runs) compared with an independent declarative layout table; bit-level analysis of the primitives',
+   text='The independent decoder of the property is a declarative layout table (spec/blob_layout.json, written from the Engine format description, not from the code). L1 derives, from the AST of each of the 14 primitives, which byte carries which bit range and the cursor advance, and compares with little/big-endian; L2/L3 extract the ordered emission grammar of the 11 encoders and the consumption grammar of the 11 decoders (helpers inlined, optional-slot alternatives enumerated, label and count idioms normalised) and match them item by item (primitive kind, logical field, repeat group, byte run) against the table; L4 checks the 4-byte big-endian length + deflate framing in compressor, decompressor and per codec (loops raw). Encoder and decoder cannot drift together: each is compared with the table, not with the other.',
+   note='Trusted: clang AST, sa/codec.py, the layout table as statement of the format (DESIGN.md Appendix A), zlib. Not decided: that real players accept the deflate stream parameters; value-level equality follows from the layout only for the structural part.',
+   ref='DESIGN.md 4 C02'),
 }
 
 NOT_APPLICABLE = {
